@@ -33,7 +33,7 @@ func runMux(seed uint64, n int, out string, rc *Case) {
 	checkOne := func(raw []byte, origin string) {
 		var acc bool
 		var err error
-		g := guarded(func() { acc, err = m.check(raw, r.Chance(10)) })
+		g := guardedOnce(func() { acc, err = m.check(raw, r.Chance(10)) })
 		sum.Evaluations++
 		cls := "rejected"
 		if acc {
@@ -51,7 +51,7 @@ func runMux(seed uint64, n int, out string, rc *Case) {
 	deliverOne := func(raws [][]byte, origin string) {
 		var codes []uint32
 		var err error
-		g := guarded(func() { codes, err = m.deliver(raws) })
+		g := guardedOnce(func() { codes, err = m.deliver(raws) })
 		sum.Evaluations += len(raws)
 		for _, c := range codes {
 			if c == 0 {
